@@ -76,6 +76,17 @@ def gen_file(rng, big=None):
         prefix = len(cs.encode_header(cs.Schema(version, 0, s.dims, [cs.Att(b"pad", cs.NC_BYTE, np.zeros(0, "i1"))], []))) - (8 if version == 5 else 8) + 0
         L = max(4, want_end_of_pad - prefix)
         L -= L % 4
+        if version != 1 and big % 3 != 2:
+            # aim: an 8-byte field of the remaining header (a count, a length, a begin) starts 4 bytes before a chunk
+            # boundary, so that the parser refills its buffer with 4 bytes of the field still unread (non-empty slack)
+            for v in s.vars:
+                v.begin = 0
+            probe = cs.Schema(version, s.numrecs, s.dims, [cs.Att(b"pad", cs.NC_BYTE, np.zeros(4, "i1"))] + s.gatts, s.vars)
+            f8 = [o for (o, n, what) in cs.decode_tokens(cs.encode_header(probe)) if n == 8 and o >= prefix + 4 and what not in ("name", "name padding", "att values", "att padding")]
+            if f8:
+                f = f8[(big // 3) % len(f8)] if big < 30 else rng.choice(f8)
+                L = 4 + (CHUNK if big % 5 else 2 * CHUNK) - 4 - f
+                assert L > 0 and L % 4 == 0
         s.gatts = [cs.Att(b"pad", cs.NC_BYTE, rand_values(rng, cs.NC_BYTE, L))] + s.gatts
     # layout a writer other than PnetCDF could have produced
     g = {i: 4 * rng.choice([0, 0, 1, 3, 64]) for i in range(len(s.vars))}
@@ -168,11 +179,11 @@ class C04(Check):
 
     def generate(self, tier, rng):
         n = int(os.environ.get("VERIF_N", 260)) if tier == "quick" else 4000
-        nbig = 24 if tier == "quick" else 300
+        nbig = 64 if tier == "quick" else 420
         for i in range(n):
             yield gen_case(rng, i, rng.choice([1, 2, 3, 4]))
         for k in range(nbig):
-            yield gen_case(rng, n + k, rng.choice([1, 2, 3]), big=k % 70)
+            yield gen_case(rng, n + k, rng.choice([1, 2, 2, 3]), big=k % 70)
 
     def features(self, res):
         for f in res.case.meta["feat"]:
